@@ -51,6 +51,7 @@ class C16(Engine):
     quick_budget = 45
     quick_runs = 5000
     thorough_budget = 1200
+    thorough_runs = 100000
     rule = ("run i = one forked naken_asm lifetime (real main(), ASan+UBSan) on a seeded SimFs workspace: corpus-based "
             "program for a seeded CPU wrapped in macros/.if/.repeat/.include/.binfile, plus 1-3 stressors drawn from "
             "%d kinds (stream cut/EIO at swept offsets, vanished/recursive/directory includes, FD limits, damaged .o/.a "
@@ -64,7 +65,12 @@ class C16(Engine):
     def directed(self):
         return len(STRESSORS) * 2
 
+    SWEEP = 41478      # thorough tier: one run per (corpus instruction, token boundary) of engines/c16t.py
+
     def plan(self, rng, index):
+        if self.tier == "thorough" and self.directed() <= index < self.directed() + self.SWEEP:
+            from engines import c16t
+            return c16t.C16T(self.tier, self.seed).plan(rng, index - self.directed() + (self.seed % 9) * len(c16t.pairs()))
         prog = progs.gen_program(rng, nstmts=rng.range(1, 8))
         files = {k: v.decode("latin-1") for k, v in progs.fs_for(prog).items()}
         plan = {"env": {"clock0": 1291231234 + rng.below(10 ** 8), "heap_fill": rng.below(4), "heap_seed": rng.u64(),
